@@ -137,7 +137,16 @@ def evaluate(case):
             thr = dict(THR) if method == 'cycles' else dict(THRA)
             z = zscore(sig)
             if via == 'object':
-                bm = Bycycle(center_extrema=centre, burst_method=method, thresholds=dict(thr),
+                # thresholds handed to the object in shorthand spelling and / or another key order (the object stores them
+                # under the full names, in whatever order results)
+                variant = (sum(map(ord, word)) + (0 if win is None else win[0])) % 3
+                if variant == 1:
+                    given = {k.replace('_threshold', ''): v for k, v in thr.items()}
+                elif variant == 2:
+                    given = dict(reversed(list(thr.items())))
+                else:
+                    given = dict(thr)
+                bm = Bycycle(center_extrema=centre, burst_method=method, thresholds=given,
                              burst_kwargs={'amp_threshes': (.5, 1.)} if method == 'amp' else None)
                 bm.load(df, sig, fs, band(fs))
                 bm.plot(xlim=xlim, plot_only_results=only, interp=interp)
@@ -183,11 +192,25 @@ def evaluate(case):
                 keys = [k for k in thr if k != 'min_n_cycles']
                 if len(axes) != len(keys) + 1:
                     return VIOL(dict(sgn, kind='n-panels'), 'expected %d parameter panels, found %d' % (len(keys), len(axes) - 1))
-                for ax, k in zip(axes[1:], keys):
-                    col = k.replace('_threshold', '')
+                # which parameter a panel shows is read from its y-label ("Amp fraction\nthreshold=0.10")
+                shown = []
+                for ax in axes[1:]:
+                    lab = ax.get_ylabel().split('\n')
+                    col = lab[0].strip().lower().replace(' ', '_')
+                    shown.append(col)
+                    k = col + '_threshold'
+                    if k not in thr:
+                        return VIOL(dict(sgn, kind='panel-label'), 'panel labelled %r is not one of the thresholded parameters' % lab[0])
+                    if len(lab) > 1 and lab[1].strip() != 'threshold=%.2f' % thr[k]:
+                        return VIOL(dict(sgn, kind='threshold-label', col=col), 'panel %s is labelled %r, the given threshold is %r' % (col, lab[1], thr[k]))
+                if sorted(shown) != sorted(k.replace('_threshold', '') for k in keys):
+                    return VIOL(dict(sgn, kind='panel-set'), 'panels %s do not show each thresholded parameter once' % shown)
+                for ax, col in zip(axes[1:], shown):
+                    k = col + '_threshold'
                     data, thl = ax.lines[0], ax.lines[1]
                     if not np.allclose(np.asarray(thl.get_ydata(), float), thr[k]):
-                        return VIOL(dict(sgn, kind='threshold-line', col=col), 'threshold line not at %r' % thr[k])
+                        return VIOL(dict(sgn, kind='threshold-line', col=col), 'threshold line of panel %s at %r, the given threshold is %r'
+                                    % (col, np.asarray(thl.get_ydata(), float).tolist(), thr[k]))
                     xs = np.asarray(data.get_xdata(), float)
                     ys = np.asarray(data.get_ydata(), float)
                     ss = np.rint(xs * fs).astype(int)
